@@ -141,7 +141,7 @@ def do_replay(prop, path, quiet=False):
 
         mode = get_mode(prop)
         v, idx = execute(mode, payload["config"], payload["events"])
-    elif eng == "P":
+    elif eng in ("P", "A"):
         from .pprops import replay as preplay
 
         v = preplay(prop, payload)
